@@ -1490,6 +1490,299 @@ fn exec_collect(w: &[&str], ex: &mut Exec) -> String {
     }
 }
 
+fn cfg_timeout(tok: &str) -> Option<Duration> {
+    Some(match tok {
+        "0" => Duration::ZERO,
+        "1ns" => Duration::from_nanos(1),
+        "1ms" => Duration::from_millis(1),
+        "1s" => Duration::from_secs(1),
+        "half" => Duration::from_secs(u64::MAX / 2),
+        "max" => Duration::MAX,
+        _ => return None,
+    })
+}
+
+fn cfg_limit(tok: &str) -> Option<usize> {
+    Some(match tok {
+        "1" => 1,
+        "2" => 2,
+        "256" => 256,
+        "max" => usize::MAX,
+        _ => return None,
+    })
+}
+
+/// `cfg <via> <limit> <timeout> <u|p>`: configuration extremes.  `via`: `new` (`AsyncifyPool::new`, raw
+/// dispatch), `lt` / `tl` (`ProactorBuilder::thread_pool_limit` then `thread_pool_recv_timeout` / the other
+/// order), `reuse` (`reuse_thread_pool`), `forcelt` / `forcetl` (the setters in either order, then
+/// `force_reuse_thread_pool`).  limit: 1 | 2 | 256 | max; timeout: 0 | 1ns | 1ms | 1s | half (u64::MAX/2 s) | max.
+/// min(limit, 3) gated jobs are submitted by one thread and must all start (`C17:job-never-ran`, bounded);
+/// with limit <= 2 one more job is submitted while they are held: it must not start (`C17:limit-exceeded`:
+/// every earlier worker is counted and inside its job, no spawn race is possible); then everything is released
+/// and must complete.  Timeouts below 1 s only with a path that keeps a pool handle (F170 can strand the
+/// dispatch there; the watchdog reports it as the known finding and rescues).
+fn exec_cfg(w: &[&str], salt: u64, ex: &mut Exec) -> String {
+    let via = w[1].to_string();
+    let (Some(limit), Some(tmo)) = (cfg_limit(w[2]), cfg_timeout(w[3])) else { return "bad-op".into() };
+    let dt = match w[4] {
+        "u" => DriverType::IoUring,
+        "p" => DriverType::Poll,
+        _ => return "bad-op".into(),
+    };
+    if !matches!(via.as_str(), "new" | "lt" | "tl" | "reuse" | "forcelt" | "forcetl") {
+        return "bad-op".into();
+    }
+    let tiny = tmo < Duration::from_secs(1);
+    if tiny && matches!(via.as_str(), "lt" | "tl") {
+        return "bad-op".into();
+    }
+    let n = limit.min(3);
+    let extra = limit <= 2;
+    let total = n + extra as usize;
+    let sh = Shared::new(salt);
+    let open = Arc::new(std::sync::atomic::AtomicBool::new(false));
+    let begun = Arc::new(AtomicUsize::new(0));
+    let done = Arc::new(AtomicUsize::new(0));
+    let extra_begun = Arc::new(std::sync::atomic::AtomicBool::new(false));
+    // the body of job j: counted, logged, held until `open`
+    let body = {
+        let (sh, open, begun, done, extra_begun) = (sh.clone(), open.clone(), begun.clone(), done.clone(), extra_begun.clone());
+        move |j: usize, is_extra: bool| {
+            let (sh, open, begun, done, extra_begun) = (sh.clone(), open.clone(), begun.clone(), done.clone(), extra_begun.clone());
+            move || {
+                sh.exec[j].fetch_add(1, SeqCst);
+                let wi = sh.begin(j);
+                if is_extra {
+                    extra_begun.store(true, SeqCst);
+                } else {
+                    begun.fetch_add(1, SeqCst);
+                }
+                let t0 = Instant::now();
+                while !open.load(SeqCst) && t0.elapsed() < Duration::from_secs(40) {
+                    thread::sleep(Duration::from_micros(200));
+                }
+                sh.end(wi, j);
+                done.fetch_add(1, SeqCst);
+            }
+        }
+    };
+    // the pool handle, when the path gives one (for the watchdog's rescue)
+    let mut pool_handle: Option<AsyncifyPool> = None;
+    let mut builder = Proactor::builder();
+    builder.driver_type(dt);
+    match via.as_str() {
+        "new" | "reuse" => {
+            let p = AsyncifyPool::new(limit, tmo);
+            if via == "reuse" {
+                builder.reuse_thread_pool(p.clone());
+            }
+            pool_handle = Some(p);
+        }
+        "lt" => {
+            builder.thread_pool_limit(limit).thread_pool_recv_timeout(tmo);
+        }
+        "tl" => {
+            builder.thread_pool_recv_timeout(tmo).thread_pool_limit(limit);
+        }
+        "forcelt" => {
+            builder.thread_pool_limit(limit).thread_pool_recv_timeout(tmo).force_reuse_thread_pool();
+            pool_handle = Some(builder.create_or_get_thread_pool());
+        }
+        _ => {
+            builder.thread_pool_recv_timeout(tmo).thread_pool_limit(limit).force_reuse_thread_pool();
+            pool_handle = Some(builder.create_or_get_thread_pool());
+        }
+    }
+    // the submitting thread: all submissions come from it, in order
+    let stage = Arc::new(AtomicUsize::new(0)); // 1 = first n submitted, 2 = extra returned
+    let extra_refused = Arc::new(std::sync::atomic::AtomicBool::new(false));
+    let (stage2, refused2, begun2, via2, pool2) = (stage.clone(), extra_refused.clone(), begun.clone(), via.clone(), pool_handle.clone());
+    let open2 = open.clone();
+    let h = helper(move || -> Result<(), String> {
+        let (stage, extra_refused, begun) = (stage2, refused2, begun2);
+        if via2 == "new" {
+            let pool = pool2.expect("pool");
+            for j in 0..n {
+                let mut f: Box<dyn FnOnce() + Send> = Box::new(body(j, false));
+                let t0 = Instant::now();
+                loop {
+                    match pool.dispatch(f) {
+                        Ok(()) => break,
+                        Err(DispatchError(back)) => {
+                            if t0.elapsed() > Duration::from_secs(5) {
+                                return Err(format!("job {j} refused for 5 s although only {j} jobs are held"));
+                            }
+                            f = back;
+                            thread::yield_now();
+                        }
+                    }
+                }
+            }
+            stage.store(1, SeqCst);
+            if extra {
+                let t0 = Instant::now();
+                while begun.load(SeqCst) < n && t0.elapsed() < Duration::from_secs(6) {
+                    thread::sleep(Duration::from_micros(200));
+                }
+                // saturated: the raw API hands the closure back
+                let mut f: Box<dyn FnOnce() + Send> = Box::new(body(n, true));
+                let mut first = true;
+                loop {
+                    match pool.dispatch(f) {
+                        Ok(()) => break,
+                        Err(DispatchError(back)) => {
+                            if first {
+                                extra_refused.store(true, SeqCst);
+                                first = false;
+                            }
+                            if t0.elapsed() > Duration::from_secs(40) {
+                                return Err("the extra job was refused for 40 s".into());
+                            }
+                            f = back;
+                            thread::sleep(Duration::from_micros(300));
+                        }
+                    }
+                }
+            }
+            stage.store(2, SeqCst);
+            return Ok(());
+        }
+        let mut driver = builder.build().map_err(|e| format!("build: {e}"))?;
+        let mut keys = vec![];
+        for j in 0..n {
+            let f = body(j, false);
+            let b: Box<dyn FnOnce() -> BufResult<usize, ()> + Send> = Box::new(move || {
+                f();
+                BufResult(Ok(j), ())
+            });
+            match driver.push(Asyncify::new(b)) {
+                PushEntry::Pending(k) => keys.push(k),
+                PushEntry::Ready(_) => return Err("push completed synchronously".into()),
+            }
+        }
+        stage.store(1, SeqCst);
+        if extra {
+            let t0 = Instant::now();
+            while begun.load(SeqCst) < n && t0.elapsed() < Duration::from_secs(6) {
+                thread::sleep(Duration::from_micros(200));
+            }
+            // saturated: push_blocking retries until a thread is free (after the release)
+            let f = body(n, true);
+            let b: Box<dyn FnOnce() -> BufResult<usize, ()> + Send> = Box::new(move || {
+                f();
+                BufResult(Ok(n), ())
+            });
+            match driver.push(Asyncify::new(b)) {
+                PushEntry::Pending(k) => keys.push(k),
+                PushEntry::Ready(_) => return Err("push completed synchronously".into()),
+            }
+        }
+        stage.store(2, SeqCst);
+        let t0 = Instant::now();
+        for mut k in keys {
+            loop {
+                let _ = driver.poll(Some(Duration::from_millis(2)));
+                match driver.pop(k) {
+                    PushEntry::Ready(BufResult(r, _)) => {
+                        r.map_err(|e| format!("io error {e}"))?;
+                        break;
+                    }
+                    PushEntry::Pending(kk) => k = kk,
+                }
+                if t0.elapsed() > Duration::from_secs(20) && open2.load(SeqCst) {
+                    return Err("a result never arrived".into());
+                }
+            }
+        }
+        Ok(())
+    });
+    let what = format!("via {via}, limit {}, idle timeout {}, {} driver", w[2], w[3], driver_name(dt));
+    // 1. the first n jobs must all start
+    let all_begun = || begun.load(SeqCst) >= n;
+    let mut never_ran = false;
+    if let (true, Some(p)) = (tiny, pool_handle.as_ref()) {
+        if let Some((sig, detail)) = watch(p, &sh, &|| all_begun() || h.is_finished(), &|| begun.load(SeqCst), limit, tmo.as_millis() as u64) {
+            ex.fail(sig, format!("{detail} ({what})"));
+        }
+    } else {
+        let t0 = Instant::now();
+        while !all_begun() && !h.is_finished() && t0.elapsed() < Duration::from_secs(6) {
+            thread::sleep(Duration::from_micros(300));
+        }
+    }
+    if !all_begun() {
+        never_ran = true;
+        ex.fail(
+            "C17:job-never-ran",
+            format!("{what}: only {} of {n} submitted blocking jobs started within the bound (the submitting thread is {})", begun.load(SeqCst), if h.is_finished() { "back" } else { "still inside the submission" }),
+        );
+    }
+    // 2. saturated: the extra job must be held back
+    let mut held = "none";
+    if extra && !never_ran {
+        let t0 = Instant::now();
+        while t0.elapsed() < Duration::from_millis(80) && !extra_begun.load(SeqCst) {
+            thread::sleep(Duration::from_millis(1));
+        }
+        if extra_begun.load(SeqCst) {
+            held = "ran";
+            ex.fail(
+                "C17:limit-exceeded",
+                format!("{what}: limit={limit} observed={} jobs running at once: one more job started while {n} jobs were held inside the pool (single submitter, every worker counted)", n + 1),
+            );
+        } else {
+            held = "held";
+        }
+    }
+    // 3. release, everything completes
+    open.store(true, SeqCst);
+    let t0 = Instant::now();
+    let finished = |d: &AtomicUsize| d.load(SeqCst) >= total;
+    if let (true, Some(p), false) = (tiny, pool_handle.as_ref(), never_ran) {
+        if let Some((sig, detail)) = watch(p, &sh, &|| (finished(&done) && h.is_finished()) || t0.elapsed() > Duration::from_secs(15), &|| 1, limit, tmo.as_millis() as u64) {
+            ex.fail(sig, format!("{detail} ({what})"));
+        }
+    } else {
+        while !(finished(&done) && h.is_finished()) && t0.elapsed() < Duration::from_secs(if never_ran { 3 } else { 15 }) {
+            thread::sleep(Duration::from_micros(300));
+        }
+    }
+    if !finished(&done) && !never_ran {
+        ex.fail("C17:job-never-ran", format!("{what}: only {} of {total} blocking jobs completed after the release", done.load(SeqCst)));
+    }
+    if h.is_finished() {
+        match h.join() {
+            Ok(Ok(())) => {}
+            Ok(Err(m)) => ex.fail("C17:result", format!("{what}: {m}")),
+            Err(_) => ex.fail("C17:result", format!("{what}: the submitting thread panicked")),
+        }
+    } else {
+        ABANDONED.store(true, SeqCst);
+        if !never_ran {
+            ex.fail("C17:dispatch-starved", format!("{what}: the submitting thread did not return"));
+        }
+    }
+    if via == "new" && extra && !never_ran && !extra_refused.load(SeqCst) && held == "held" {
+        // it did not start and was not handed back either: dispatch blocked
+        ex.fail("C17:dispatch-starved", format!("{what}: the saturated pool neither ran nor handed back the extra job"));
+    }
+    for j in 0..total {
+        let c = sh.exec[j].load(SeqCst);
+        if c != 1 && !never_ran {
+            ex.fail("C17:exactly-once", format!("{what}: job {j} ran {c} times"));
+        }
+    }
+    drop(pool_handle);
+    if !abandoned() {
+        wait_alone();
+    }
+    ex.tag(format!("cfg:{via}"));
+    ex.tag(format!("cfg:timeout={}", w[3]));
+    ex.tag(format!("cfg:limit={}", w[2]));
+    ex.nontrivial = true;
+    format!("cfg ok jobs={} extra={held}", done.load(SeqCst))
+}
+
 /// `parked <limit> <timeout_ms> <u|p> <hold_ms> <poll_timeout_ms>`: a pool shared with a foreign dispatcher
 /// whose jobs hold every thread for `hold_ms`; the driver pushes a blocking job meanwhile and then sleeps in
 /// `poll(poll_timeout)`.  The refused submission is retried by the submitting driver itself, so the job must
@@ -1894,7 +2187,7 @@ fn exec_inner(case: &Case) -> Exec {
     let first: Vec<&str> = case.lines.first().map(|l| l.split_whitespace().collect()).unwrap_or_default();
     match first.first().copied() {
         Some("hist") => exec_hist(case, &mut ex),
-        Some("conc") | Some("prx") | Some("burst") | Some("busyfd") | Some("parked") | Some("collect") => {
+        Some("conc") | Some("prx") | Some("burst") | Some("busyfd") | Some("parked") | Some("collect") | Some("cfg") => {
             let salt = checksum(case.name.as_bytes());
             for line in &case.lines {
                 let w: Vec<&str> = line.split_whitespace().collect();
@@ -1905,6 +2198,7 @@ fn exec_inner(case: &Case) -> Exec {
                     Some("busyfd") if w.len() == 5 => exec_busyfd(&w, salt, &mut ex),
                     Some("parked") if w.len() == 6 => exec_parked(&w, salt, &mut ex),
                     Some("collect") if w.len() == 7 => exec_collect(&w, &mut ex),
+                    Some("cfg") if w.len() == 5 => exec_cfg(&w, salt, &mut ex),
                     _ => "bad-op".into(),
                 };
                 ex.out.push(out);
@@ -2135,6 +2429,27 @@ fn generate_inner(tier: &str, rng: &mut Rng) -> Vec<Case> {
                 let tag = rng.below(100_000);
                 cases.push(Case { name: format!("collect/{k}"), lines: vec![format!("collect {} 1000 {dt} {path} {kind} {tag}", rng.range(1, 3))] });
                 k += 1;
+            }
+        }
+    }
+    // 4d. configuration extremes through every way to configure the pool
+    let mut k = 0usize;
+    for via in ["new", "lt", "tl", "reuse", "forcelt", "forcetl"] {
+        for tmo in ["0", "1ns", "1ms", "1s", "half", "max"] {
+            if matches!(via, "lt" | "tl") && matches!(tmo, "0" | "1ns" | "1ms") {
+                continue;
+            }
+            for limit in ["1", "2", "256", "max"] {
+                for dt in ["u", "p"] {
+                    k += 1;
+                    // quick: limits 1 / 2 on alternating drivers for every (via, timeout), the large limits sampled
+                    let keep = thorough
+                        || (matches!(limit, "1" | "2") && (k / 2) % 2 == (dt == "u") as usize)
+                        || (!matches!(limit, "1" | "2") && k % 8 == 0);
+                    if keep {
+                        cases.push(Case { name: format!("cfg/{k}"), lines: vec![format!("cfg {via} {limit} {tmo} {dt}")] });
+                    }
+                }
             }
         }
     }
